@@ -47,8 +47,8 @@ CHECK_MODULES = {
 
 # ---------------------------------------------------------------- environment matrix
 # A property holds in every legitimate environment of the server process, not only in the one the checks happen to be
-# started in.  After the main search every check re-runs a slice of itself (Hypothesis budgets divided by ENV_DIV, every
-# ENV_DIV-th case of each enumeration) in child processes that differ from the parent in exactly one respect.  A violation
+# started in.  After the main search every check re-runs a slice of itself (Hypothesis budgets divided by ENV_DIV = 16 (32 in the thorough tier), every
+# ENV_DIV-th case of each enumeration; cases marked env_case always) in child processes that differ from the parent in exactly one respect.  A violation
 # found there is reported like any other; its replay file records the environment and `--replay` re-creates it.
 ENVIRONMENTS = [
     ('tz_us_eastern', {'TZ': 'EST5EDT,M3.2.0,M11.1.0'}),
@@ -59,7 +59,7 @@ ENVIRONMENTS = [
     ('warnings_are_errors', {'PYTHONWARNINGS': 'error'}),
     ('hash_seed_other', {'PYTHONHASHSEED': '4242'}),
 ]
-ENV_DIV = int(os.environ.get('VERIF_ENV_DIV', '8'))
+ENV_DIV = int(os.environ.get('VERIF_ENV_DIV', '16'))
 ENV_CHILD = os.environ.get('VERIF_ENV_CHILD') or None
 
 
@@ -773,7 +773,7 @@ def _run_environments(prop, tier, argv):
         if name in skip:
             report[name] = {'env': extra, 'skipped': getattr(_CTX['mod'], 'SKIP_ENVIRONMENTS')[name]}
             continue
-        env = dict(os.environ, VERIF_ENV_CHILD=name, VERIF_ENV_DIV=os.environ.get('VERIF_ENV_DIV') or ('8' if tier == 'quick' else '24'), **extra)
+        env = dict(os.environ, VERIF_ENV_CHILD=name, VERIF_ENV_DIV=os.environ.get('VERIF_ENV_DIV') or ('16' if tier == 'quick' else '32'), **extra)
         t1 = time.time()
         r = subprocess.run([sys.executable, '-B', '-m', 'vf.run', prop, tier], env=env, stdout=subprocess.PIPE, stderr=subprocess.STDOUT, text=True)
         out = r.stdout
